@@ -44,6 +44,37 @@ impl Component for CC { type Storage = HashMapStorage<Self>; }
 pub struct CZ;
 impl Component for CZ { type Storage = NullStorage<Self>; }
 
+/// Component whose storage type has NO default: it can only be registered with `register_with_storage`; the `setup` of a
+/// system-data handle for it finds the storage in place and must leave it alone (declaration table only).
+pub struct CN(pub u32);
+pub struct NoDefaultStorage<T>(VecStorage<T>);
+impl<T> specs::storage::UnprotectedStorage<T> for NoDefaultStorage<T> {
+    type AccessMut<'a> = &'a mut T where T: 'a;
+    unsafe fn clean<B>(&mut self, has: B) where B: specs::hibitset::BitSetLike { unsafe { self.0.clean(has) } }
+    unsafe fn get(&self, id: specs::world::Index) -> &T { unsafe { self.0.get(id) } }
+    unsafe fn get_mut(&mut self, id: specs::world::Index) -> &mut T { unsafe { self.0.get_mut(id) } }
+    unsafe fn insert(&mut self, id: specs::world::Index, v: T) { unsafe { self.0.insert(id, v) } }
+    unsafe fn remove(&mut self, id: specs::world::Index) -> T { unsafe { self.0.remove(id) } }
+}
+impl<T> specs::storage::TryDefault for NoDefaultStorage<T> {
+    fn try_default() -> Result<Self, String> { Err("this storage type has no default".into()) }
+}
+impl Component for CN { type Storage = NoDefaultStorage<Self>; }
+
+/// `decl registered` line: the storage of `CN` is registered explicitly, then both handles' `setup` run, then it is used.
+fn registered_line() -> String {
+    let mut w = World::new();
+    w.register_with_storage::<_, CN>(|| NoDefaultStorage(VecStorage::default()));
+    let rd = catch_unwind(AssertUnwindSafe(|| { <ReadStorage<CN> as ShredSystemData>::setup(&mut w); })).is_ok();
+    let wr = catch_unwind(AssertUnwindSafe(|| { <WriteStorage<CN> as ShredSystemData>::setup(&mut w); })).is_ok();
+    let used = catch_unwind(AssertUnwindSafe(|| {
+        let e = w.create_entity().with(CN(7)).build();
+        let st = w.read_storage::<CN>();
+        st.get(e).map(|c| c.0) == Some(7)
+    })).unwrap_or(false);
+    format!("read={} write={} used={}", if rd { "ok" } else { "panic" }, if wr { "ok" } else { "panic" }, if used { "ok" } else { "bad" })
+}
+
 /// A member of a system's data tuple, chosen by a marker type.
 pub trait Pick<'a> {
     type Data: ShredSystemData<'a>;
@@ -68,8 +99,14 @@ impl<'a, T: Component + Default> Pick<'a> for WrM<T> {
     fn touch(d: &mut Self::Data) -> u32 {
         // components for entities other systems have just created (and possibly asked to delete): whatever `insert`
         // answers, it must not panic
-        let hs: Vec<Entity> = { let h = HANDLES.lock().unwrap(); h.iter().rev().take(4).cloned().collect() };
-        for e in hs { let _ = d.insert(e, T::default()); }
+        let ep = EPOCH.load(SeqCst);
+        let hs: Vec<(u64, Entity)> = { let h = HANDLES.lock().unwrap(); h.iter().rev().take(4).cloned().collect() };
+        for (hep, e) in hs {
+            let _ = d.insert(e, T::default());
+            // an entity created during this very dispatch is alive (whatever index it got, a recycled one included): the
+            // idiomatic `entry(e).unwrap()` of an initialising system must not panic
+            if hep == ep { let _ = d.entry(e).unwrap(); }
+        }
         let mut n = 0;
         for _c in (&mut *d).join() { n += 1; }
         n
@@ -77,7 +114,10 @@ impl<'a, T: Component + Default> Pick<'a> for WrM<T> {
 }
 /// Handles published by the systems that hold `Entities` (created in this dispatch, some of them with a deletion already
 /// requested); the systems that hold a `WriteStorage` insert components for them.
-static HANDLES: std::sync::Mutex<Vec<Entity>> = std::sync::Mutex::new(Vec::new());
+static HANDLES: std::sync::Mutex<Vec<(u64, Entity)>> = std::sync::Mutex::new(Vec::new());
+/// Number of the dispatch in progress: a handle published during it denotes an entity that is alive until the `maintain`
+/// behind this dispatch (its deletion, if requested, is deferred).
+static EPOCH: AtomicU64 = AtomicU64::new(0);
 
 impl<'a> Pick<'a> for EntM {
     type Data = Entities<'a>;
@@ -88,7 +128,7 @@ impl<'a> Pick<'a> for EntM {
         let a = d.create();
         let b = d.create();
         let _ = d.delete(b);
-        { let mut h = HANDLES.lock().unwrap(); h.push(a); h.push(b); if h.len() > 64 { h.drain(..32); } }
+        { let ep = EPOCH.load(SeqCst); let mut h = HANDLES.lock().unwrap(); h.push((ep, a)); h.push((ep, b)); if h.len() > 64 { h.drain(..32); } }
         let n = d.join().count();
         let m = (&**d).par_join().count();
         (n + m) as u32
@@ -368,6 +408,7 @@ fn table(out: &mut String) {
     out.push_str(&format!("decl writestorage 3 => {}\n", decl_fresh!(WriteStorage<CZ>)));
     out.push_str(&format!("decl entities => {}\n", decl_fresh!(Entities)));
     out.push_str(&format!("decl readlazy => {}\n", decl_fresh!(Read<LazyUpdate>)));
+    out.push_str(&format!("decl registered => {}\n", registered_line()));
 }
 
 // ------------------------------------------------------------------ building and running
@@ -452,6 +493,7 @@ fn run_graph(g: &Graph, world: &mut World, threads: usize, reps: usize, spin: u6
         let mut depviol = 0u64;
         for _ in 0..reps {
             for i in 0..n { sh.enter[i].store(0, SeqCst); sh.exit[i].store(0, SeqCst); }
+            EPOCH.fetch_add(1, SeqCst);
             d.dispatch(world);
             world.maintain();
             for (i, s) in g.specs.iter().enumerate() {
